@@ -1,5 +1,6 @@
 // C20 harness: drives the real failsafe.StateChangeWatcher with a deterministic
-// clock and a scripted predicate; observable = ordered (reaction, instant) list.
+// clock and a scripted predicate; observables = the instant of every observation
+// and the ordered (reaction, instant) list.
 package main
 
 import (
@@ -14,22 +15,53 @@ import (
 	c "verifharness/common"
 )
 
-type fakeClock struct{ now time.Time }
+// fakeClock: a deterministic clock.Clock.  Blocking waits return exactly when they
+// are due (a non-positive wait returns at once, as time.Sleep / time.After do);
+// extra time passes only where the script says so:
+//
+//	Pre   before the reading at the top of the loop (recognised as the first clock
+//	      call ever, or a Since() that directly follows a Now(): the loop ends with
+//	      lastRunAt = Now() and starts with Since(lastRunAt))
+//	Delay inside the predicate
+//	Post  inside the callback (a reaction that takes time, e.g. a policy reload)
+type fakeClock struct {
+	now     time.Time
+	calls   int
+	lastNow bool // the previous clock call was Now()
+	pre     func() time.Duration
+}
 
-func (f *fakeClock) Now() time.Time      { return f.now }
-func (f *fakeClock) Sleep(d time.Duration) { f.now = f.now.Add(d) }
+func (f *fakeClock) tick(isNow bool) { f.calls++; f.lastNow = isNow }
+func (f *fakeClock) Now() time.Time  { f.tick(true); return f.now }
+func (f *fakeClock) Sleep(d time.Duration) {
+	f.tick(false)
+	if d > 0 {
+		f.now = f.now.Add(d)
+	}
+}
 func (f *fakeClock) After(d time.Duration) <-chan time.Time {
-	f.now = f.now.Add(d)
+	f.tick(false)
+	if d > 0 {
+		f.now = f.now.Add(d)
+	}
 	ch := make(chan time.Time, 1)
 	ch <- f.now
 	return ch
 }
-func (f *fakeClock) Since(t time.Time) time.Duration { return f.now.Sub(t) }
-func (f *fakeClock) Until(t time.Time) time.Duration { return t.Sub(f.now) }
+func (f *fakeClock) Since(t time.Time) time.Duration {
+	if f.calls == 0 || f.lastNow {
+		f.now = f.now.Add(f.pre())
+	}
+	f.tick(false)
+	return f.now.Sub(t)
+}
+func (f *fakeClock) Until(t time.Time) time.Duration { f.tick(false); return t.Sub(f.now) }
 
 type Step struct {
 	Obs   bool  `json:"obs"`
-	Delay int64 `json:"delay_ns"`
+	Pre   int64 `json:"pre_ns"`   // scheduling slack before the top-of-loop reading
+	Delay int64 `json:"delay_ns"` // time spent inside the predicate
+	Post  int64 `json:"post_ns"`  // time spent inside the callback (0 when none was called)
 }
 type Rx struct {
 	Kind     bool  `json:"healthy"`
@@ -37,14 +69,14 @@ type Rx struct {
 	AfterObs int   `json:"after_observation"` // index of the observation it followed
 }
 type Case struct {
-	N        int    `json:"consecutive_n"`
-	P        int64  `json:"stable_ns"`
-	I        int64  `json:"interval_ns"`
-	C        int64  `json:"cooldown_ns"`
-	T0       int64  `json:"t0_ns"`
-	Script   []Step `json:"script"`
+	N        int     `json:"consecutive_n"`
+	P        int64   `json:"stable_ns"`
+	I        int64   `json:"interval_ns"`
+	C        int64   `json:"cooldown_ns"`
+	T0       int64   `json:"t0_ns"`
+	Script   []Step  `json:"script"`
 	ObsAt    []int64 `json:"observed_at_ns"`
-	Observed []Rx   `json:"reactions"`
+	Observed []Rx    `json:"reactions"`
 }
 
 func exec(k *Case) {
@@ -53,6 +85,20 @@ func exec(k *Case) {
 	i := 0
 	k.Observed = nil
 	k.ObsAt = nil
+	clk.pre = func() time.Duration {
+		if i < len(k.Script) {
+			return time.Duration(k.Script[i].Pre)
+		}
+		return 0
+	}
+	called := make([]bool, len(k.Script))
+	react := func(kind bool) {
+		k.Observed = append(k.Observed, Rx{kind, clk.now.UnixNano(), i - 1})
+		if i >= 1 && i <= len(k.Script) {
+			called[i-1] = true
+			clk.now = clk.now.Add(time.Duration(k.Script[i-1].Post))
+		}
+	}
 	cfg := failsafe.Config{
 		ObtainPredicate: func() bool {
 			if i >= len(k.Script) {
@@ -65,8 +111,8 @@ func exec(k *Case) {
 			k.ObsAt = append(k.ObsAt, clk.now.UnixNano())
 			return s.Obs
 		},
-		OnChangeToTrue:      func() { k.Observed = append(k.Observed, Rx{true, clk.now.UnixNano(), i - 1}) },
-		OnChangeToFalse:     func() { k.Observed = append(k.Observed, Rx{false, clk.now.UnixNano(), i - 1}) },
+		OnChangeToTrue:      func() { react(true) },
+		OnChangeToFalse:     func() { react(false) },
 		MinTimeBetweenCalls: time.Duration(k.I),
 		ConsecutiveN:        k.N,
 		MinStablePeriod:     time.Duration(k.P),
@@ -75,15 +121,21 @@ func exec(k *Case) {
 	w := failsafe.NewStateChangeWatcher("verif", cfg, clk, zerolog.Nop())
 	w.RunInBackground()
 	<-done
+	// the callback slack was consumed only where a callback ran
+	for j := range k.Script {
+		if !called[j] {
+			k.Script[j].Post = 0
+		}
+	}
 }
 
 func coq(k *Case) string {
-	return c.Tuple(
-		c.Tuple(c.Z(int64(k.N)), c.Z(k.P), c.Z(k.I), c.Z(k.C)),
-		c.Z(k.T0),
-		c.MapList(k.Script, func(s Step) string { return c.Tuple(c.B(s.Obs), c.Z(s.Delay)) }),
-		c.MapList(k.Observed, func(r Rx) string { return c.Tuple(c.B(r.Kind), c.Z(r.At)) }),
-	)
+	return "(Case " + c.Z(int64(k.N)) + " " + c.Z(k.P) + " " + c.Z(k.I) + " " + c.Z(k.C) + " " + c.Z(k.T0) + " " +
+		c.MapList(k.Script, func(s Step) string {
+			return "It " + c.B(s.Obs) + " " + c.Z(s.Pre) + " " + c.Z(s.Delay) + " " + c.Z(s.Post)
+		}) + " " +
+		c.MapList(k.ObsAt, func(t int64) string { return c.Z(t - k.T0) }) + " " + // offsets from t0
+		c.MapList(k.Observed, func(r Rx) string { return c.Tuple(c.B(r.Kind), c.Z(r.At-k.T0)) }) + ")"
 }
 
 // monitor restates the property over what the implementation did
@@ -138,20 +190,32 @@ func monitor(k *Case) []c.Hit {
 
 func main() {
 	o := c.NewOut("C20")
+	// two suites over the same case type and run function: the exhaustive small-scope scripts and
+	// the random long ones (separate so that each gets its own <= 32 coqc shards: a shard of 4 000
+	// long random cases needs ~2 GB)
 	o.DeclareSuite("watcher", "From Verif Require Import C20.Model.", "case", "run_case")
+	o.DeclareSuite("watcher_rnd", "From Verif Require Import C20.Model.", "case", "run_case")
 	o.Rule("exhaustive boolean observation scripts up to a length bound x a grid of settings " +
 		"(N, stable period, interval, cool-down, fixed per-check delay), then random scripts with " +
-		"random per-check delays; distinct = distinct (settings, script, observed reactions); " +
+		"random settings (negative stable period / cool-down, interval -1 ns included) and random " +
+		"per-check slacks of the clock (before the top-of-loop reading, inside the predicate, inside " +
+		"the callback); compared: the instant of every observation and the (reaction, instant) list; " +
+		"distinct = distinct (settings, script, observation instants, observed reactions); " +
 		"non-trivial = at least one reaction fired")
 	var k Case
-	if _, ok := o.ReplayCase(&k); ok {
-		run(o, k)
+	if suite, ok := o.ReplayCase(&k); ok {
+		if suite != "watcher_rnd" {
+			suite = "watcher"
+		}
+		run(o, suite, k)
 		o.Finish()
 		return
 	}
 	const sec = int64(time.Second)
 	t0 := int64(1_700_000_000) * sec
-	maxLen := o.Scale(7, 11, 9)
+	// thorough: every length up to 9 (98 112 cases) + 30 000 random ones = ~128 000 cases
+	// (lengths up to 11 were 393 000 cases: 25 min and > 1.5 GB per coqc shard)
+	maxLen := o.Scale(7, 9, 9)
 	for _, n := range []int{0, 1, 2, 3} {
 		for _, p := range []int64{0, 2 * sec, 2*sec + 1} {
 			for _, iv := range []int64{0, sec} {
@@ -167,9 +231,9 @@ func main() {
 							for bits := 0; bits < 1<<l; bits++ {
 								k := Case{N: n, P: p, I: iv, C: cd, T0: t0}
 								for j := 0; j < l; j++ {
-									k.Script = append(k.Script, Step{bits>>j&1 == 1, d})
+									k.Script = append(k.Script, Step{Obs: bits>>j&1 == 1, Delay: d})
 								}
-								run(o, k)
+								run(o, "watcher", k)
 							}
 						}
 					}
@@ -179,32 +243,40 @@ func main() {
 	}
 	r := o.Rng
 	delays := []int64{0, 1, sec / 2, sec - 1, sec, sec + 1, 3 * sec}
-	for i := 0; i < o.Scale(1500, 30000, 20000); i++ {
+	slack := []int64{0, 0, 0, 1, sec / 2, sec - 1, sec, sec + 1, 2 * sec}
+	for i := 0; i < o.Scale(3000, 30000, 20000); i++ {
 		k := Case{N: r.Range(-1, 5), T0: t0 + int64(r.Intn(1000))}
-		k.P = c.Pick(r, []int64{0, 1, sec, 2 * sec, 2*sec + 1, 5 * sec})
-		k.I = c.Pick(r, []int64{0, 1, sec, 2 * sec})
-		k.C = c.Pick(r, []int64{0, 1, sec, 3 * sec, 10 * sec})
+		k.P = c.Pick(r, []int64{-sec, 0, 1, sec, 2 * sec, 2*sec + 1, 5 * sec})
+		// (an interval below -1 ns is left out: Go's int64 subtraction wraps on the first
+		// iteration, see notes/C20.md "unbounded integers")
+		k.I = c.Pick(r, []int64{-1, 0, 1, sec, sec, 2 * sec})
+		k.C = c.Pick(r, []int64{-3 * sec, -1, 0, 1, sec, 3 * sec, 10 * sec})
 		l := r.Range(1, 24)
 		cur := r.Bool()
+		slow := r.Chance(1, 2) // half of the cases: an otherwise idle clock
 		for j := 0; j < l; j++ {
 			if r.Chance(1, 4) {
 				cur = !cur
 			}
-			k.Script = append(k.Script, Step{cur, c.Pick(r, delays)})
+			s := Step{Obs: cur, Delay: c.Pick(r, delays)}
+			if slow {
+				s.Pre, s.Post = c.Pick(r, slack), c.Pick(r, slack)
+			}
+			k.Script = append(k.Script, s)
 		}
-		run(o, k)
+		run(o, "watcher_rnd", k)
 	}
 	o.Finish()
 }
 
-func run(o *c.Out, k Case) {
+func run(o *c.Out, suite string, k Case) {
 	exec(&k)
 	o.Count(fmt.Sprintf("len=%02d", len(k.Script)))
 	o.Count(fmt.Sprintf("reactions=%d", len(k.Observed)))
-	idx := o.Case("watcher", coq(&k), k, len(k.Observed) > 0)
+	idx := o.Case(suite, coq(&k), k, len(k.Observed) > 0)
 	o.MonitorChecked(1)
 	for _, h := range monitor(&k) {
-		h.Suite, h.Index = "watcher", idx
+		h.Suite, h.Index = suite, idx
 		o.Hit(h)
 	}
 }
